@@ -788,5 +788,26 @@ theorem dm_equals_mixture_meas (ns : Bool) (ne np nc : Nat) (det : Bool) (ops : 
   obtain ⟨e3, n3⟩ := toC_mixtureDensity (ne + np) s.mix hg.mixN
   exact ⟨ρ, hρ, toC_inj (ne + np) _ _ hn n3 (by rw [e, e3])⟩
 
+/-- whenever the density matrix is `Σ_k w_k ρ(T_k)`, its overlap with any stabilizer target is the weighted sum of the
+    branch overlaps -/
+theorem overlap_of_eqOn (n : Nat) (ρ : Mat) (m : Mixture) (hm : MixN n m) (h : Mat.EqOn ρ (mixtureDensity n m))
+    (T : Tab) (hT : T.n = n) : (ρ.mul (stabilizerDensity T)).trace = mixOverlapQ T m := by
+  obtain ⟨e3, n3⟩ := toC_mixtureDensity n m hm
+  have n2 : ρ.n = 2 ^ n := by rw [h.1, n3]
+  obtain ⟨e4, _⟩ := toC_stabilizerDensity n T hT
+  apply gqC_injective
+  rw [gqC_mulTrace n _ _ n2, toC_congr n _ _ n2 h, e3, e4, overlap_linear, gqC_mixOverlapQ n T hT m hm]
+
+/-- same fidelity with any stabilizer target on both backends, circuits with uniform measurements -/
+theorem overlap_both_backends_meas (ns : Bool) (ne np nc : Nat) (det : Bool) (ops : List COp)
+    (hw : ∀ op ∈ ops, OpOK2 (ne + np) np op) (s : StabSt) (d : DmSt)
+    (hs : compileStab ns ne np nc det ops = .ok s) (hd : compileDM ns ne np nc det ops = .ok d)
+    (hu : s.nonUniform = false) (hW : wThr < Mix.total s.mix) (T : Tab) (hT : T.n = ne + np) :
+    ∃ ρ, d.ρ = some ρ ∧ (ρ.mul (stabilizerDensity T)).trace = mixOverlapQ T s.mix := by
+  obtain ⟨ρ, hρ, he⟩ := dm_equals_mixture_meas ns ne np nc det ops hw s d hs hd hu hW
+  have hm : MixN (ne + np) s.mix :=
+    fun x hx => (compileStab_ok ns ne np nc det ops (fun op ho => (hw op ho).wf) s hs x hx).1
+  exact ⟨ρ, hρ, overlap_of_eqOn (ne + np) ρ s.mix hm he T hT⟩
+
 end MixDM
 end Graphiq
